@@ -268,7 +268,8 @@ func (b *Blob) Truncate(size int64) error {
 	}
 
 	value := safejs.Safe(b.JSValue())
-	smallerBuf, err := value.Call("slice", 0, size)
+	// subarray, not slice: the shorter blob keeps sharing its bytes with the views taken of it, like View does
+	smallerBuf, err := value.Call("subarray", 0, size)
 	if err != nil {
 		return err
 	}
